@@ -308,11 +308,11 @@ pub fn print(a: &Ast, ops: &OpSet, mode: Parens) -> String {
         Ast::Func(n, args) => format!(
             "{}({})",
             n,
-            args.iter().map(|x| print(x, ops, mode)).collect::<Vec<_>>().join(", ")
+            args.iter().map(|x| print(x, ops, mode)).collect::<Vec<_>>().join(" , ")
         ),
         Ast::List(items) => format!(
             "[{}]",
-            items.iter().map(|x| print(x, ops, mode)).collect::<Vec<_>>().join(", ")
+            items.iter().map(|x| print(x, ops, mode)).collect::<Vec<_>>().join(" , ")
         ),
         Ast::Map(items) => format!(
             "{{{}}}",
@@ -324,9 +324,10 @@ pub fn print(a: &Ast, ops: &OpSet, mode: Parens) -> String {
                     format!("{} : {}", ks, print(v, ops, mode))
                 })
                 .collect::<Vec<_>>()
-                .join(", ")
+                .join(" , ")
         ),
-        Ast::Stmt(items) => items.iter().map(|x| print(x, ops, mode)).collect::<Vec<_>>().join("; "),
+        // (a word operator directly followed by ';' or ',' would not be recognised as one)
+        Ast::Stmt(items) => items.iter().map(|x| print(x, ops, mode)).collect::<Vec<_>>().join(" ; "),
         Ast::Ternary(c, x, y) => {
             let cs = if matches!(**c, Ast::Ternary(..)) || (mode == Parens::Full && !is_atom(c)) {
                 wrap(c)
